@@ -311,6 +311,10 @@ def run(ctx):
         ctx.ob("C03.G.syn-explicit-span", f.key, "syn::Error::new(explicit span, kind)", ok, "%s" % (kinds.get("explicit"),))
         ok = "callsite" in kinds and kinds["callsite"][0] == "darling_core::error::Error::span(a1)" and kinds["callsite"][1] == "a1"
         ctx.ob("C03.G.syn-callsite-with-path", f.key, "syn::Error::new(call site, full Display incl. path)", ok, "%s" % (kinds.get("callsite"),))
+    # conversion to compiler diagnostics goes through flatten(): that is where a leaf without a span
+    # receives its bundle's span (rules shared with C04)
+    from .C04 import syn_conversion_rules
+    syn_conversion_rules(ctx, "C03.syn")
     f = ctx.fn(E + "explicit_span")
     if f:
         rs = ctx.ret_values(f)
